@@ -34,9 +34,17 @@ func ZZVerifC09Corpus() {
 		ids[n] = id
 		docs[n].live = true
 	}
+	// optionally start from a populated corpus (lengths 2, 3 and 1 tokens), so that short histories reach states
+	// in which, e.g., a delete leaves a length sum that the document count does not divide
+	if rt.IntRange("prefill", 0, 1) == 1 {
+		for n, t := range []string{"cat dog", "cat cat fish", "dog"} {
+			rt.Assert(db.AddMetadata("i", ids[n], map[string]any{"body": t}) == nil, "prefill: AddMetadata")
+			docs[n].isText, docs[n].text = true, t
+		}
+	}
 	steps := rt.IntRange("steps", 1, rt.Param("STEPS", 3))
 	for s := 0; s < steps; s++ {
-		n := rt.IntRange("doc", 0, rt.Param("DOCS", 2)-1)
+		n := rt.IntRange("doc", 0, nd-1)
 		switch rt.IntRange("op", 0, 2) {
 		case 0: // set / overwrite the text field
 			t := zzTexts[rt.IntRange("text", 0, len(zzTexts)-1)]
